@@ -34,7 +34,7 @@ RULE = (
 ASSUMPTIONS = ["every field of the mutation has a logging custom resolver, so every resolver invocation is visible in the log"]
 BOUNDS = {
     "quick": {"top_level_fields": 3, "early_bound": 1, "free_order_upto": 4, "styles": "uniform + alternating"},
-    "thorough": {"top_level_fields": 3, "early_bound": 2, "free_order_upto": 5, "styles": "all"},
+    "thorough": {"top_level_fields": 3, "early_bound": 1, "free_order_upto": 5, "styles": "all for <= 2 coordinates", "note": "all permutations of three blocks, every wrapping with the full failure set"},
 }
 TIME_CAP = {"quick": 240, "thorough": 1500}
 
